@@ -81,6 +81,11 @@ class SoftwareManager:
                     open_ports += list(software.listen_on_ports)
         return open_ports
 
+    @staticmethod
+    def _is_running(software: IOSoftware) -> bool:
+        """Whether a service or application is in its RUNNING operating state."""
+        return software.operating_state in {ApplicationOperatingState.RUNNING, ServiceOperatingState.RUNNING}
+
     def check_port_is_open(self, port: Port, protocol: IPProtocol) -> bool:
         """
         Check if a specific port is open and running a service using the specified protocol.
@@ -244,9 +249,13 @@ class SoftwareManager:
         :param session: The transport session the payload originates from.
         """
         if payload.__class__.__name__ == "PortScanPayload":
-            self.software.get("nmap").receive(payload=payload, session_id=session_id)
+            nmap = self.software.get("nmap")
+            if nmap and self._is_running(nmap):
+                nmap.receive(payload=payload, session_id=session_id)
             return
-        main_receiver = self.port_protocol_mapping.get((port, protocol), None)
+        # only running software receives payloads
+        mapped_receiver = self.port_protocol_mapping.get((port, protocol), None)
+        main_receiver = mapped_receiver if mapped_receiver and self._is_running(mapped_receiver) else None
         if main_receiver:
             main_receiver.receive(
                 payload=payload, session_id=session_id, from_network_interface=from_network_interface, frame=frame
@@ -254,7 +263,7 @@ class SoftwareManager:
         listening_receivers = [
             software
             for software in self.software.values()
-            if port in software.listen_on_ports and software != main_receiver
+            if port in software.listen_on_ports and software != mapped_receiver and self._is_running(software)
         ]
         for receiver in listening_receivers:
             receiver.receive(
